@@ -185,6 +185,14 @@ def c20_step(run):
         if s.get("problems") and shown < 3:
             shown += 1
             run.violation("the spline fitter breaks the property: " + "; ".join(s["problems"])[:300], {"kind": "spline", "property": "C20", "case": s}, True)
+    curves = d.get("curves") or []
+    run.cov["evaluations"] += len(curves)
+    run.cov["containment_test_cases"] = {"inside": sum(1 for c in curves if c["expected"] == "inside"), "outside": sum(1 for c in curves if c["expected"] == "outside")}
+    shown = 0
+    for c in curves:
+        if c.get("problem") and shown < 3:
+            shown += 1
+            run.violation("the fitter's containment test breaks the property: " + c["problem"], {"kind": "curve", "property": "C20", "case": c}, True)
     rep = 0
     shown = 0
     for r in d["roots"]:
